@@ -320,6 +320,18 @@ fn directed(sh: &mut Shard, tier: Tier) {
             }
         }
     }
+    // ~5 000 code points in a string literal, a comment, a name, a print format, a builtin argument
+    for c in super::c08::code_points() {
+        for text in [
+            format!("stel s = \"a{c}b\"; [lengte(s), s[1], s[-1]]"),
+            format!("print(\"{c}{{}}{c}\", \"{c}\")"),
+            format!("// {c}\nx{c}y"),
+            format!("int(\"{c}\") + float(\"1{c}\")"),
+            format!("stel s = \"{c}{c}{c}\"; s[1] = \"a\"; s"),
+        ] {
+            case(sh, "code-points", &text, 20_000);
+        }
+    }
     // escape sequences of other languages inside string literals (as a value, printed, measured, indexed)
     for body in super::c08::foreign_escape_bodies() {
         for text in [format!("\"{body}\""), format!("print(\"{body}\")"), format!("lengte(\"{body}\") + 1"), format!("\"{body}\"[0]")] {
